@@ -234,6 +234,30 @@ func ruleR133(p *Program, r *Report, a *sqlAST) {
 							r.Bad("R13.3", fnName(fn), construct, p.Pos(st.Pos()), "comparison operator replaced by a computed value")
 							continue
 						}
+						// the replacement keeps the polarity of the operator it replaces: the case constants that lead
+						// to this store are all negated operators, or none is
+						newOp, _ := constStringOf(st.Val)
+						negated := func(op string) bool {
+							return op == "!=" || op == "<>" || strings.HasPrefix(op, "not ")
+						}
+						mismatch := ""
+						for _, pb := range st.Block().Preds {
+							iff, isIf := pb.Instrs[len(pb.Instrs)-1].(*ssa.If)
+							if !isIf || pb.Succs[0] != st.Block() {
+								continue
+							}
+							if bo, isBo := iff.Cond.(*ssa.BinOp); isBo && bo.Op == token.EQL {
+								for _, side := range []ssa.Value{bo.X, bo.Y} {
+									if oldOp, isC := constStringOf(side); isC && negated(oldOp) != negated(newOp) {
+										mismatch = "`" + oldOp + "` is replaced by `" + newOp + "`"
+									}
+								}
+							}
+						}
+						if mismatch != "" {
+							r.Bad("R13.3", fnName(fn), construct, p.Pos(st.Pos()), "the search rewrite changes the polarity of a comparison: "+mismatch+" - the forwarded statement selects the complement of what the client asked for")
+							continue
+						}
 					}
 					r.OK("R13.3", fnName(fn), construct, p.Pos(st.Pos()), why)
 				} else {
@@ -301,21 +325,39 @@ func ruleR134(p *Program, r *Report) {
 		}
 	}
 	n := 0
+	// the literal encoders: functions that consult the escape table, and functions that hand the value on to one
+	// (an encoder split into a wrapper and an escaping helper is still one encoder)
+	encoder := map[*ssa.Function]bool{}
+	for changed := true; changed; {
+		changed = false
+		for _, fn := range p.SrcFuncs("sqlparser/dependency/sqltypes") {
+			if encoder[fn] || fn.Name() == "init" || strings.HasPrefix(fn.Name(), "init#") {
+				continue
+			}
+			for _, b := range fn.Blocks {
+				for _, in := range b.Instrs {
+					for _, op := range in.Operands(nil) {
+						if *op == ssa.Value(encMap) {
+							encoder[fn] = true
+						}
+					}
+					if c, ok := in.(ssa.CallInstruction); ok {
+						if sc := c.Common().StaticCallee(); sc != nil && encoder[sc] {
+							encoder[fn] = true
+						}
+					}
+				}
+			}
+			if encoder[fn] {
+				changed = true
+			}
+		}
+	}
 	for _, fn := range p.SrcFuncs("sqlparser/dependency/sqltypes") {
 		if fn.Name() == "init" || strings.HasPrefix(fn.Name(), "init#") {
 			continue
 		}
-		uses := false
-		for _, b := range fn.Blocks {
-			for _, in := range b.Instrs {
-				for _, op := range in.Operands(nil) {
-					if *op == ssa.Value(encMap) {
-						uses = true
-					}
-				}
-			}
-		}
-		if !uses {
+		if !encoder[fn] {
 			continue
 		}
 		var data *ssa.Parameter
@@ -748,4 +790,8 @@ func ruleR137(p *Program, r *Report) {
 func init() {
 	mut("C13", "tokenizer drops the backslash of escaped LIKE wildcards (original defect)", "sqlparser/token.go", "				if tkn.lastChar == '%' || tkn.lastChar == '_' {", "				if false {", "R13.7", "backslash kept")
 	mut("C13", "tokenizer keeps the backslash of \\% only", "sqlparser/token.go", "				if tkn.lastChar == '%' || tkn.lastChar == '_' {", "				if tkn.lastChar == '%' {", "R13.7", "escaped _")
+}
+
+func init() {
+	mut("C13", "searchable rewrite sends != as =", "encryptor/mysql/searchable_query_filter.go", "	case sqlparser.EqualStr, sqlparser.NullSafeEqualStr, sqlparser.LikeStr, sqlparser.ILikeStr:\n		expr.Operator = sqlparser.EqualStr\n	case sqlparser.NotEqualStr, sqlparser.NotLikeStr, sqlparser.NotILikeStr:", "	case sqlparser.EqualStr, sqlparser.NotEqualStr, sqlparser.NullSafeEqualStr, sqlparser.LikeStr, sqlparser.ILikeStr:\n		expr.Operator = sqlparser.EqualStr\n	case sqlparser.NotLikeStr, sqlparser.NotILikeStr:", "R13.3", "ComparisonExpr.Operator")
 }
